@@ -127,5 +127,3 @@ func printReport(r *interp.Report) {
 	fmt.Println(string(b))
 }
 
-func cmdCheck(args []string) int  { fmt.Fprintln(os.Stderr, "not implemented"); return 2 }
-func cmdReplay(args []string) int { fmt.Fprintln(os.Stderr, "not implemented"); return 2 }
